@@ -255,7 +255,8 @@ def run(ctx):
         raw_use = [x for x in raw_use if x != "p2" or True]
         # the only allowed raw appearance is as the argument of max(0, .)
         bad = [x for x in raw_use if x not in ("p2",) ]
-        direct = [c for c in f.calls() if any(expr_tree(prog, f, a) == "p2" for a in c.args) and not (c.callee and c.callee["name"] == "max")]
+        direct = [c for c in f.calls() if any(expr_tree(prog, f, a) == "p2" for a in c.args) and not (c.callee and c.callee["name"] == "max")
+                  and not (c.callee and c.callee["name"] == "clamp" and mk_call("clamp", [expr_tree(prog, f, a) for a in c.args]) == UR)]
         sw_raw = [bi for bi, bb in enumerate(f.blocks) if bb["t"]["k"] == "switch" and re.search(r"(?<![\w.])p2(?![\w.])", expr_tree(prog, f, bb["t"]["on"]).replace(UR, "UR"))]
         ctx.inst("C18.R3", "clamp/" + nm, not bad and not direct and not sw_raw and any(UR in x for x in allt),
                  "%s curve: utilization is clamped to [0, 1] (ur.max(0).min(1)) before every comparison and arithmetic use" % nm,
@@ -309,7 +310,7 @@ def run(ctx):
              bad[:3] or "%d paths" % len(paths), lerp.loc(lerp.raw["span"]))
 
     # ------------------------------------------------------------ R5 rate algebra
-    for nm, want in (("rate_from_u32", "mul(div(from_num(p1),from_num(4294967295)),from_num(10))"), ("util_from_u32", "div(from_num(p1),from_num(4294967295))")):
+    for nm, want in (("rate_from_u32", "mul(10,div(p1,4294967295))"), ("util_from_u32", "div(p1,4294967295)")):
         g = prog.find_fns({"name": nm, "crate": "marginfi", "self_adt": "InterestRateCalc"})
         ctx.inst("C18.R5", "conv/" + nm, len(g) == 1 and ret_tree(prog, g[0]) == want, "%s(x) = %s" % (nm, want), [ret_tree(prog, x) for x in g], g[0].loc(g[0].raw["span"]) if g else None)
     rt = ret_tree(prog, calc)
